@@ -5,7 +5,7 @@ hierarchy, the component instances and their handler declarations are built from
 """
 from collections import Counter
 
-from ..replay import guarded
+from ..replay import guarded, SKIP
 from ..tla import fmap
 
 
@@ -460,9 +460,12 @@ class WorldAdapter:
             comps_ix = {tn[t]: frozenset(modelid(e) for e in s) for t, s in w._components.items()}
             deadset = frozenset(modelid(e) for e in w._dead_entities)
             obs['wb_tables'] = (ents, comps_ix, deadset)
+        except Exception:
+            obs['wb_tables'] = SKIP
+        try:
             obs['wb_queue_len'] = len(w._event_queue)
         except Exception:
-            pass
+            obs['wb_queue_len'] = SKIP
         return obs
 
     # ------------------------------------------------------------------------------------------
@@ -528,9 +531,8 @@ class WorldAdapter:
                     if (c, e) not in pending:
                         must[c] = (e, True)
             exp['ctrl_knows'] = lambda o, must=must: all(o.get(c) == v for c, v in must.items())
-        if hasattr(self.env.w, '_entities') and hasattr(self.env.w, '_components') and hasattr(self.env.w, '_dead_entities'):
-            exp['wb_tables'] = (rows, {t: frozenset(s) for t, s in index.items()}, frozenset(dead))
-            exp['wb_queue_len'] = len(post['queue'])
+        exp['wb_tables'] = (rows, {t: frozenset(s) for t, s in index.items()}, frozenset(dead))
+        exp['wb_queue_len'] = len(post['queue'])
         return exp
 
     def _expand(self, entry, reg):
